@@ -154,7 +154,7 @@ def build(spec, plain=False):
     for i, ts in enumerate(spec["tasks"]):
         kw = dict(
             name=ts["name"],
-            ID=ts["name"],
+            ID=ts.get("id") or ts["name"],
             default_work_amount=ts.get("work", 1.0),
             default_progress=ts.get("progress"),
             auto_task=bool(ts.get("auto", False)),
@@ -182,7 +182,7 @@ def build(spec, plain=False):
             t = TaskC(**kw)
         t._vh = hashes[i]
         m.tasks.append(t)
-        m.byname[t.name] = t
+        m.byname[t.ID] = t
     for i, j, kind in spec.get("links", []):
         m.tasks[j].append_input_task(m.tasks[i], task_dependency_mode=DEP[kind])
     chash = spec.get("chash") or list(range(len(spec.get("components", []))))
@@ -197,7 +197,11 @@ def build(spec, plain=False):
         for ti in cs.get("tasks", []):
             m.components[i].append_targeted_task(m.tasks[ti])
     for tms in spec.get("teams", []):
-        team = BaseTeam(name=tms["name"], ID=tms["name"])
+        if tms.get("wire") == "ctor":
+            # one-sided wiring through the constructor keyword: only the team knows its tasks
+            team = BaseTeam(name=tms["name"], ID=tms["name"], targeted_task_list=[m.tasks[ti] for ti in tms.get("targets", [])])
+        else:
+            team = BaseTeam(name=tms["name"], ID=tms["name"])
         for ws in tms.get("workers", []):
             w = WkC(
                 name=ws["name"],
@@ -217,7 +221,7 @@ def build(spec, plain=False):
             team.add_worker(w)
             m.workers.append(w)
             m.byname[w.ID] = w
-        for ti in tms.get("targets", []):
+        for ti in (tms.get("targets", []) if tms.get("wire") != "ctor" else []):
             team.append_targeted_task(m.tasks[ti])
         m.teams.append(team)
         m.byname[team.name] = team
